@@ -25,3 +25,5 @@ def run(ctx):
     ctx.prefetch(["b3sum"])
     for r in ("P1", "P2", "P3", "P4", "P5"):
         ctx.run_rule(r, getattr(r_b3sum, "rule_" + r), ["b3sum"])
+    # the reader side of the round trip starts in check_one_checkfile: lines are read whole and each is handed to check_one_line
+    ctx.run_rule("B1", r_b3sum.rule_B1, ["b3sum"])
